@@ -1406,8 +1406,10 @@ func (a *Authenticator) storeClientSession(negotiation *SecurityNegotiation, dur
 		serverAddr = a.stream.GetPeerAddr()
 	}
 
-	// Create session entry with remote address (using sinful string)
-	entry := NewSessionEntry(negotiation.SessionId, serverAddr, keyInfo, policy, expiration, lease, "")
+	// Create session entry with remote address (using sinful string), filed under the
+	// security tag this handshake ran with: ClientHandshake looks sessions up by
+	// {tag, address, command}, so a session must only be reachable under its own tag.
+	entry := NewSessionEntry(negotiation.SessionId, serverAddr, keyInfo, policy, expiration, lease, a.config.SecurityTag)
 
 	// Store in cache
 	cache.Store(entry)
@@ -1418,7 +1420,7 @@ func (a *Authenticator) storeClientSession(negotiation *SecurityNegotiation, dur
 		for _, cmd := range commands {
 			cmd = strings.TrimSpace(cmd)
 			if cmd != "" {
-				cache.MapCommand("", serverAddr, cmd, negotiation.SessionId)
+				cache.MapCommand(a.config.SecurityTag, serverAddr, cmd, negotiation.SessionId)
 			}
 		}
 	}
